@@ -170,6 +170,7 @@ func genParse(c *ctx) string {
 	fmt.Fprintf(&b, "def argPosAfterToken : Bool := %s\n", argPosAfterToken(c))
 	fmt.Fprintf(&b, "def opLineBeforeSkip : Bool := %s\n", opLineBeforeSkip(c))
 	fmt.Fprintf(&b, "def maxParseDepth : Option Nat := %s\n", maxParseDepth(c))
+	fmt.Fprintf(&b, "/-- `readType`: a list type without a member type (`[]`) is a parse error (D107) -/\ndef listNeedsMember : Bool := %s\n", listNeedsMember(c))
 	type ent struct{ name, h string }
 	var ents []ent
 	for name, fd := range c.funcs {
@@ -195,6 +196,24 @@ func genParse(c *ctx) string {
 	}
 	b.WriteString("]\nend Ggql.Gen\n")
 	return b.String()
+}
+
+// listNeedsMember reads the `[` arm of parser.readType: is a nil inner type refused right after the inner call?
+func listNeedsMember(c *ctx) string {
+	fd := c.funcs["parser.readType"]
+	if fd == nil {
+		return unknown("readType", "parser.go")
+	}
+	t := regexp.MustCompile(`(?m)//.*$`).ReplaceAllString(c.src(fd.Body), "")
+	t = regexp.MustCompile(`\s+`).ReplaceAllString(t, " ")
+	const inner = "if t, err = p.readType(); err != nil { return } "
+	switch {
+	case strings.Contains(t, inner+"b, err = p.skipSpace()"):
+		return "false"
+	case strings.Contains(t, inner+`if t == nil { err = parseError(p.line, p.col, "a list type must have a member type") return } b, err = p.skipSpace()`):
+		return "true"
+	}
+	return unknown("readType list arm", c.pos(fd))
 }
 
 // maxParseDepth reads the nesting limit of the scanners (D03): `none` when nothing in the package calls
